@@ -89,16 +89,11 @@ def root? : CST → Option Name
 def isTern : CST → Bool
   | tern _ _ _ => true
   | _ => false
-def isPostfixNode : CST → Bool
-  | .postfix _ _ => true
-  | _ => false
 /-- what a postfix operator may be written after without parentheses: an atom, a bracketed form, a
-call — or a prefix expression whose operand already carries its own postfix operator (`-a!!` reads
-`(-(a!))!`: the prefix operator's operand takes one postfix operator, the next one applies to the
-whole). -/
+call, or such a thing already followed by postfix operators — not a prefix expression (`-a++` is
+`-(a++)`). -/
 def postfixable : CST → Bool
-  | atom _ | paren _ | call _ _ | list _ | map _ => true
-  | .unary _ (.postfix _ _) => true
+  | .atom _ | .paren _ | .call _ _ | .list _ | .map _ | .postfix _ _ => true
   | _ => false
 /-- operand of a prefix operator: anything but an unparenthesised infix expression or conditional -/
 def isPrimary : CST → Bool
